@@ -89,10 +89,26 @@ class _RtFile:
         return common.fresh_node(common.StaticTree, None, "rt.tree")
 
 
+class _RtStep:
+    """The attached step node of a label: its state is a function of the label."""
+
+    def __init__(self, label):
+        self.label = label
+        self.path = label
+
+    def get_state(self):
+        c = cur()
+        st = ty.EnumOf(common.enums.StepState).fresh(c.fresh_name("rt.step_state"))
+        c.pc.append(tm.Eq(I(st), _f("step_state", self.label, INT)))
+        return st
+
+
 def _find_attached(self, node_type, label):
     c = cur()
     c.event("rt.find_attached", node_type=node_type, label=label)
-    return _RtFile(label) if c.fork(attached(label)) else None
+    if not c.fork(attached(label)):
+        return None
+    return _RtStep(label) if getattr(node_type, "__name__", "") == "Step" else _RtFile(label)
 
 
 def _chain_pending(self, node):
@@ -366,3 +382,61 @@ _st.note = "the witness clause (a non-empty result has an attached step row in t
 _st.args = dict(self=lambda a: workflow_spec([(STEPS_SQL, ty.TupleOf(ty.Int, ty.Str))]).fresh("workflow"),
                 state=ty.EnumOf(common.enums.StepState))
 _st.finish = _steps_finish
+
+
+# ---- Workflow.initialize_boot: resume or re-initialise (C05: what a killed build leaves is repaired by resume_from_db,
+#      which serve() runs exactly when this function returns False)
+
+PLAN_PY = wfmod.PLAN_PY
+
+
+class _IbRoot:
+    i = 0
+
+    def products(self):
+        cur().event("ib.root_products")
+        return []
+
+
+class _IbWorkflow:
+    """The workflow as initialize_boot uses it: the lookups are functions of the label (find_attached's contract); the
+    re-initialisation calls are recorded."""
+
+    def __init__(self, name):
+        self.root = _IbRoot()
+
+    def find_attached(self, node_type, label):
+        return _find_attached(self, node_type, label)
+
+    def declare_static_files(self, creator, paths):
+        cur().event("ib.declare_static_files", paths=list(paths))
+        return {}
+
+    def update_file_hashes(self, hashes, *, cause):
+        cur().event("ib.update_file_hashes")
+
+    def define_step(self, creator, command, **kw):
+        cur().event("ib.define_step", command=command, kw=kw)
+
+
+def _ib_finish(c, outcome, args, old):
+    """Resume (False) exactly when plan.py is an attached CONFIRMED file and the boot step is attached -- whatever
+    state that step is in: RUNNING / CHECKING / FAILED leftovers of a killed build are what resume_from_db repairs.
+    Otherwise the boot nodes are declared again and True is returned."""
+    if outcome[0] != "return":
+        return
+    cmd = args["command"]
+    resume = tm.And(attached(PLAN_PY), attached(cmd), tm.Eq(state_t(PLAN_PY), tm.mk_int(FileState.CONFIRMED.value)))
+    res = outcome[1]
+    c.prove("resumes_iff_the_boot_nodes_are_there", tm.Iff(tm.Not(B(res)), resume), kind="post")
+    made = [e for e in c.trace if e.kind in ("ib.declare_static_files", "ib.define_step")]
+    c.prove("reinitialises_iff_it_says_so", tm.Iff(B(res), tm.mk_bool(
+        [e.kind for e in made] == ["ib.declare_static_files", "ib.define_step"])), kind="post")
+
+
+@contract("stepup/core/workflow.py::Workflow.initialize_boot", props=["C05", "C04", "C19"])
+class initialize_boot:
+    args = dict(self=ty.Make(_IbWorkflow), command=lambda a: "./plan.py")
+    finish = _ib_finish
+    modifies = []
+    loops = {0: LoopSpec()}
